@@ -583,5 +583,51 @@ class HashCollisions(Part):
         return res
 
 
+class ScrubbedLines(Part):
+    name = "words_next_to_scrubbed_statements"
+    desc = "every whole-line-scrub form of the catalogue with a listed word in the text kept before it (prompt, JSON key, bracket) and in the scrub notice itself: the word occurs nowhere in the output"
+
+    def __init__(self, tier, seed):
+        self.tier, self.seed = tier, seed
+
+    def cases(self):
+        return [{"form": f["id"]} for f in secdom.catalogue() if f["scrub"]]
+
+    def run(self, case):
+        from netconan.anonymize_files import FileAnonymizer
+
+        res = Res()
+        f = [x for x in secdom.catalogue() if x["id"] == case["form"]][0]
+        stmt = secdom.fill(f["template"], ["s3cretValue", "0therS3cret"])
+        reserved = {r.lower() for r in builtin_reserved()}
+        for words in (["kowloon"], ["zenithcorp", "kowloon"], ["scrubbed"], ["sensitive", "kowloon"]):
+            lines = ['{"kowloon-cmts": "%s"}' % stmt, "[Kowloon-ap] %s" % stmt, " area 0 virtual-link 10.0.0.1 ZenithCorp kowloon %s" % stmt,
+                     "KOWLOON# %s ! kowloon" % stmt, stmt]
+            if "lines" in case:
+                if case["words"] != words:
+                    continue
+                lines = case["lines"]
+            try:
+                with seams.capture_logs():
+                    fa = FileAnonymizer(anon_pwd=True, anon_ip=False, salt="saltForTest", sensitive_words=list(words))
+                    out = io.StringIO()
+                    fa.anonymize_io(io.StringIO("".join(l + "\n" for l in lines)), out)
+            finally:
+                seams.restore_globals()
+            got = out.getvalue().split("\n")[:-1]
+            for ln, g in zip(lines, got):
+                res.evals += 1
+                res.nt((f["id"], tuple(words), ln))
+                res.out("SCRUBBED" in g)
+                hits = [(w, t) for w in words for t in g.split() if w in t.lower() and t.lower() not in reserved]
+                if hits:
+                    res.violation("listed-word-survives-next-to-a-scrubbed-statement",
+                                  "words %r: %r -> %r keeps %r in %r" % (words, ln, g, hits[0][0], hits[0][1]),
+                                  {"form": f["id"], "words": words, "lines": [ln]})
+        if "lines" not in case:
+            res.samples.append({"form": f["template"]})
+        return res
+
+
 def parts(tier, seed):
-    return [ListsPart(tier, seed), SecretsPart(tier, seed), SeedPart(tier, seed), HistoryPart(tier, seed), OwnOutputWords(tier, seed), SecondAnonymizer(tier, seed), HashCollisions(tier, seed)]
+    return [ListsPart(tier, seed), SecretsPart(tier, seed), SeedPart(tier, seed), HistoryPart(tier, seed), OwnOutputWords(tier, seed), SecondAnonymizer(tier, seed), HashCollisions(tier, seed), ScrubbedLines(tier, seed)]
